@@ -641,6 +641,8 @@ fn uu<const B1: usize, const L1: usize, const B2: usize, const L2: usize>(r: &Ru
         one!("Uint<B2>::saturating_from(Uint<B1>)", |a: Uint<B1, L1>| Uint::<B2, L2>::saturating_from(a), if fits { u(&v, B2) } else { maxv(B2) });
         one!("Uint<B1>::uint_try_to::<Uint<B2>>", |a: Uint<B1, L1>| <Uint<B1, L1> as UintTryTo<Uint<B2, L2>>>::uint_try_to(&a),
             if fits { V::ok(u(&v, B2)) } else { V::err(V::T(vec![V::s("Overflow"), V::n(B2), u(&w, B2), maxv(B2)])) });
+        one!("Uint<B2>::from_uint(Uint<B1>) [deprecated]", |a: Uint<B1, L1>| { #[allow(deprecated)] let x = Uint::<B2, L2>::from_uint(a); x }, if fits { u(&v, B2) } else { V::Panic });
+        one!("Uint<B2>::checked_from_uint(Uint<B1>) [deprecated]", |a: Uint<B1, L1>| { #[allow(deprecated)] let x = Uint::<B2, L2>::checked_from_uint(a); x }, if fits { V::some(u(&v, B2)) } else { V::None });
         one!("Uint<B1>::to::<Uint<B2>>", |a: Uint<B1, L1>| a.to::<Uint<B2, L2>>(), if fits { u(&v, B2) } else { V::Panic });
         one!("Uint<B1>::wrapping_to::<Uint<B2>>", |a: Uint<B1, L1>| a.wrapping_to::<Uint<B2, L2>>(), u(&w, B2));
         one!("Uint<B1>::saturating_to::<Uint<B2>>", |a: Uint<B1, L1>| a.saturating_to::<Uint<B2, L2>>(), if fits { u(&v, B2) } else { maxv(B2) });
